@@ -138,7 +138,9 @@ pub fn sheet_xml(p: &str, sh: &Value) -> String {
                         kids.push_str(&format!("<{f}{a}>{t}</{f}>", f = q(p, "f"), a = fa, t = esc(f)));
                     }
                 }
-                if let Some(v) = t["v"].as_str() {
+                if let Some(raw) = t["v_raw"].as_str() {
+                    kids.push_str(&format!("<{v}>{t}</{v}>", v = q(p, "v"), t = raw));
+                } else if let Some(v) = t["v"].as_str() {
                     kids.push_str(&format!("<{v}{sp}>{t}</{v}>", v = q(p, "v"), sp = space_attr(v), t = esc(v)));
                 }
                 if let Some(raw) = t["is_raw"].as_str() {
